@@ -80,3 +80,20 @@ Definition corr_ctype (tbls : list (list (str * str))) (c : Z * str * (str * str
   | 2%Z, [_; _; x] => str_eqb (xlsx_content_type_b (lower_of pr) x sn name) got
   | _, _ => false
   end.
+
+(* XLS image stage: (slices of the BLIP walk as (rec_type, bytes), implementation's images as
+   (image_index, type id, bytes, (width, height))) — the sha1 oracle is instantiated by byte equality *)
+Open Scope Z_scope.
+Definition type_id (t : itype) : Z :=
+  match t with T_png => 0 | T_jpeg => 1 | T_gif => 2 | T_bmp => 3 | T_tiff => 4 | T_emf => 5 | T_wmf => 6 end.
+Fixpoint xls_eqb (a : list (Z * itype * list Z)) (b : list (Z * Z * list Z * (option Z * option Z))) : bool :=
+  match a, b with
+  | [], [] => true
+  | (n, t, d) :: a', (n', t', d', wh) :: b' =>
+      (n =? n') && (type_id t =? t') && zlist_eqb d d' && sniff_eqb (util_dims (kind_of t) d) wh && xls_eqb a' b'
+  | _, _ => false
+  end.
+Definition corr_xls (c : list (Z * list Z) * list (Z * Z * list Z * (option Z * option Z))) : bool :=
+  xls_eqb (xls_stage (fun d => d) zlist_eqb [] 0 (fst c)) (snd c).
+Definition corr_detect (c : list Z * Z) : bool :=
+  match detect_type (fst c) with Some t => type_id t =? snd c | None => snd c =? (-1) end.
